@@ -48,7 +48,9 @@ type Run struct {
 	model *Model
 	deep  *Deep
 
-	feasible map[*Func][]Path
+	entryMemo map[*Func]lockset
+	callSites map[*Func][]callSite
+	feasible  map[*Func][]Path
 	neverErr map[*types.Func]int
 }
 
